@@ -91,9 +91,12 @@ def run(ck):
                 # Bezier x Bezier drawn at a hundredth of the size: the parameters of the crossing do not change (the subdivision works with an absolute
                 # tolerance, 1e-12 on the box area - still far below this scale)
                 nsmall += 1
-                sa, sb = a.scaled(0.01), b.scaled(0.01)
-                ck.case(fp=('pair-small', q, str(pr)), nontrivial=True)
-                report_case(ck, tag + ' scaled 0.01', sa, sb, [(t1, t2, sa.point(t1))], {'pr': pr, 'q': q, 'scale': 0.01})
+                # ... and at a thousandth / a hundred-thousandth of it: the crossing and its parameters do not depend on the unit of length (a tolerance that does
+                # not shrink with the curves accepts boxes as large as the curves: wrong parameters, one crossing reported several times)
+                for sc_ in (0.01, 1e-3, 1e-5):
+                    sa, sb = a.scaled(sc_), b.scaled(sc_)
+                    ck.case(fp=('pair-small', sc_, q, str(pr)), nontrivial=True)
+                    report_case(ck, tag + ' scaled %g' % sc_, sa, sb, [(t1, t2, sa.point(t1))], {'pr': pr, 'q': q, 'scale': sc_})
             if linepair:
                 fa, fb = a.scaled(1e-3).translated(4000 + 3000j), b.scaled(1e-3).translated(4000 + 3000j)
                 ck.case(fp=('pair-far', q, str(pr)), nontrivial=True)
